@@ -44,7 +44,7 @@ TRUSTED = [
     "value semantics for TaskGroupRegister / meta-task sets stored in pool dicts (no object is stored under two keys)",
     "counting-permission meta-theorem (number of token owners <= outstanding tokens)",
     "mathematical integers; pool size is an extended natural Fin(k)|Inf; non-integral or NaN sizes excluded",
-    "objects the pool never inspects are truthy unless None; logging is effect-free; PYTHON_BEFORE_39 is False",
+    "tasks, coroutine objects, coroutine functions and callables are truthy (no exotic __bool__); None is falsy; any other opaque object may be either; logging is effect-free; PYTHON_BEFORE_39 is False",
 ]
 
 
@@ -124,6 +124,12 @@ def symbolic_pool(cls: str, prefix: str = "p") -> Dict[str, V]:
 
 
 # fields assigned only in __init__ (checked mechanically from the AST by unit `callgraph`): never havocked
+def sym_truthy():
+    from pyvc import sym
+
+    return sym.TRUTHY
+
+
 SHARED_IMMUTABLE = ("clsname", "_name", "_idx", "_func", "_args", "_kwargs", "_end_callback", "_cancel_callback")
 
 
@@ -157,11 +163,12 @@ def inv_clauses(sh, simple: bool = False) -> List[Tuple[str, z3.ExprRef, Tuple[s
                                      z3.Implies(p.size.inf, z3.And(v.inf, p.sem.P == 0, p.sem.g == 0))), ("C01",)))
     cl.append(("I6.tokens", p.sem.out == p.R.card + p.C.card, ("C02", "C01")))
     rt, ct, et = p.Rv(i), p.Cv(i), p.Ev(i)
-    cl.append(("I6r.running", z3.ForAll([i], z3.Implies(p.R.has(i), z3.And(rt != NONE, sel(kind, rt) == K_WRAPPER, sel(tid, rt) == i, sel(tok, rt),
+    tr = sym_truthy()
+    cl.append(("I6r.running", z3.ForAll([i], z3.Implies(p.R.has(i), z3.And(rt != NONE, sel(tr, rt), sel(kind, rt) == K_WRAPPER, sel(tid, rt) == i, sel(tok, rt),
                                                                          z3.Or(sel(loc, rt) == L_NS, sel(loc, rt) == L_BODY)))), ("C02", "C03")))
-    cl.append(("I6c.cancelled", z3.ForAll([i], z3.Implies(p.C.has(i), z3.And(ct != NONE, sel(kind, ct) == K_WRAPPER, sel(tid, ct) == i, sel(tok, ct),
+    cl.append(("I6c.cancelled", z3.ForAll([i], z3.Implies(p.C.has(i), z3.And(ct != NONE, sel(tr, ct), sel(kind, ct) == K_WRAPPER, sel(tid, ct) == i, sel(tok, ct),
                                                                            sel(loc, ct) == L_CCB))), ("C02", "C03")))
-    cl.append(("I6e.ended", z3.ForAll([i], z3.Implies(p.E.has(i), z3.And(et != NONE, sel(kind, et) == K_WRAPPER, sel(tid, et) == i, z3.Not(sel(tok, et)),
+    cl.append(("I6e.ended", z3.ForAll([i], z3.Implies(p.E.has(i), z3.And(et != NONE, sel(tr, et), sel(kind, et) == K_WRAPPER, sel(tid, et) == i, z3.Not(sel(tok, et)),
                                                                        z3.Or(sel(loc, et) == L_ECB, sel(loc, et) == L_DONE)))), ("C02", "C03")))
     lt, it_ = sel(loc, t), sel(tid, t)
     cl.append(("I6w.wrapper-location", z3.ForAll([t], z3.Implies(sel(kind, t) == K_WRAPPER, z3.And(
@@ -853,7 +860,7 @@ class PoolTheory(Theory):
             self.before_create_task(st)
         t = fresh("newtask", Ref)
         p = PView(st)
-        st.assume(z3.And(t != NONE, t != st.me, z3.Select(p.kind, t) == K_NONE))
+        st.assume(z3.And(t != NONE, t != st.me, z3.Select(p.kind, t) == K_NONE, z3.Select(sym_truthy(), t)))  # a Task object is truthy
         self.set_ghost(st, "kind", t, z3.IntVal(kinds[q]))
         self.set_ghost(st, "loc", t, z3.IntVal(L_NS))
         self.set_ghost(st, "creq", t, z3.BoolVal(False))
@@ -1043,7 +1050,7 @@ class PoolTheory(Theory):
             ok = st.fork()
             ok.tags.append("call:ok")
             r = fresh("coro", Ref)
-            ok.assume(z3.And(r != NONE, z3.Select(z3.Const("is_coro", A_RB), r)))
+            ok.assume(z3.And(r != NONE, z3.Select(z3.Const("is_coro", A_RB), r), z3.Select(sym_truthy(), r)))
             bad = st.fork()
             bad.tags.append("call:raises")
             if getattr(self, "on_call_raised", None) is not None:
